@@ -228,14 +228,6 @@ def Info.wellSized : Info → Bool
   | .p2tr k => k.length = 32
   | _ => false
 
-macro "forinfo_tac " hl:ident sh:ident h:ident : tactic => `(tactic| (
-  unfold forInfoText
-  rw [$sh:ident]
-  simp only [tokTexts, tokText, Info.field, nonempty_of_len $hl, bind, Except.bind, pure, Except.pure,
-    List.append_nil, List.cons_append, List.nil_append, Bool.false_eq_true, if_false]
-  simp only [compileTokens_cons, compileTokens_nil, ct_dup, ct_hash160, ct_equalverify, ct_checksig, ct_equal, ct_0, ct_1,
-    compileToken_hex $h (by omega) (by omega), $hl:ident, except_bind_ok]
-  simp))
 
 theorem forInfo_p2pkh (h : Bytes) (hl : h.length = 20) : forInfo (.p2pkh h) = .ok (stdScript (.p2pkh h)) := by
   show forInfoText (.p2pkh h) = _
